@@ -27,7 +27,7 @@ PRINTABLE = bytes(range(0x20, 0x7f))
 SPECIAL = b" =,%+;"
 TOKEN = b"abcxyzABZ019-_.~"
 KEYS = [b"a", b"b", b"c", b"k1", b"k 1", b"x=y", b"p%q", b"c,d", b"s;t", b"+", b"%", b"~._-", b" ", b" lead", b"trail ", b"=", b",", b";",
-        b"%41", b"a+b", b'"q"', b"{}"]
+        b"%41", b"a+b", b'"q"', b"{}", b"ab", b"abc", b"long-key", b"long-key2", b"a.much.longer.key_0123456789", b"user id;v=1", b"K" * 70]
 BADKEYS = [b"", b"\x00", b"a\x00b", b"\x7f", b"\x80", b"k\xff", b"\x1f", b"\t", b"a\nb"]
 
 
@@ -65,15 +65,19 @@ def rnd_key(rng):
 
 def ops_case(rng, nops, init=None):
     parts = ["OPS " + ("NEW" if init is None else hx(init))]
+    used = []
     for j in range(nops):
         n = j + 1  # objects so far
         # mostly continue from the newest object so that baggages grow; sometimes from an older one
         idx = n - 1 if rng.chance(3, 4) else rng.below(n)
         k = rng.below(10)
+        # half of the time aim at a key that an earlier Set of this case used
+        key = rng.choice(used) if used and rng.chance(1, 2) else rnd_key(rng)
         if k < 6:
-            parts.append("S %d %s %s" % (idx, hx(rnd_key(rng)), hx(rnd_value(rng))))
+            used.append(key)
+            parts.append("S %d %s %s" % (idx, hx(key), hx(rnd_value(rng))))
         elif k < 9:
-            parts.append("D %d %s" % (idx, hx(rnd_key(rng))))
+            parts.append("D %d %s" % (idx, hx(key)))
         else:
             parts.append("F %s" % hx(rnd_header(rng)))
     return " ; ".join(parts)
@@ -90,12 +94,19 @@ PCT_OK = [b"%41", b"%3b", b"%3B", b"%2C", b"%3D", b"%25", b"%20", b"%7e", b"+", 
 OWS_OK = [b"", b"", b"", b" ", b"\t", b"  "]
 
 
+def rnd_pct(rng):
+    """%XX of a printable character, each hex digit in random case"""
+    c = 0x20 + rng.below(0x5f)
+    d = "%02x" % c
+    return b"%" + "".join(ch.upper() if rng.chance(1, 2) else ch for ch in d).encode()
+
+
 def enc_piece(rng, good):
     k = rng.below(10)
     if k < 5:
         return rnd_str(rng, 1 + rng.below(4), TOKEN)
     if good:
-        return rng.choice(PCT_OK)
+        return rng.choice(PCT_OK) if k < 7 else rnd_pct(rng)
     if k < 8:
         return rng.choice(PCT)
     if k == 8:
@@ -291,7 +302,7 @@ def gen(rng, tier):
     n = 1 if tier == "quick" else 12
     cases = []
     # ---- Set/Delete sequences (small key alphabet: hits on existing keys are frequent)
-    for _ in range(350 * n):
+    for _ in range(600 * n):
         cases.append(ops_case(rng, rng.choice([1, 2, 3, 5, 8, 12, 20, 30])))
     for _ in range(60 * n):
         cases.append(ops_case(rng, rng.choice([1, 2, 4, 8]), init=rnd_header(rng)))
@@ -315,12 +326,15 @@ def gen(rng, tier):
         y = total - 5 - x
         cases.append("OPS NEW ; S 0 x61 %s ; S 1 x62 %s" % (hx(b"p" * x), hx(b"q" * y)))
     # ---- extraction from headers
-    for _ in range(1200 * n):
+    for _ in range(2500 * n):
         cases.append(hdr(rnd_header(rng), rng.choice([None, None, b"s=1"])))
     for p in PCT + RAWBAD:
         for init in (None, b"s=1"):
             cases.append(hdr(b"k=" + p, init)); cases.append(hdr(p + b"=v", init)); cases.append(hdr(b"a=1,k=x" + p + b"y,b=2", init))
             cases.append(hdr(b"k=v;" + p, init))
+    for c in range(0x20, 0x7f):
+        cases.append(hdr(b"k%%%02x=v%%%02X" % (c, c)))
+        cases.append(hdr(b"k=%%%02x;m" % c if c % 2 else b"%%%02X=" % c, b"s=1"))
     for m in META:
         cases.append(hdr(b"k=v" + m)); cases.append(hdr(b"k=v " + m + b" ,b=2")); cases.append(hdr(b"k=" + m))
     for w in OWS:
